@@ -102,7 +102,7 @@ Definition fill_ok (sp : space) (w : nat) (fill : list utxo_ref) : bool :=
     nodupb fill && forallb (fun r => mem r (take_diff sp)) fill
     && (length fill =? Nat.min (w - length best) (length (take_diff sp)))%nat
   else match fill with [] => true | _ => false end.
-Definition take (sp : space) (w : nat) (fill : list utxo_ref) : list utxo_ref :=
+Definition take_space (sp : space) (w : nat) (fill : list utxo_ref) : list utxo_ref :=
   let best := s_list (sp_inter sp) in
   if (length best <? w)%nat then best ++ fill else best.
 
@@ -176,7 +176,7 @@ Definition window : nat := 50.
 (** candidates handed to coin selection by select_input / select_collateral *)
 Definition fetched_cands (st : store) (sp : space) (q : query) (ign : list utxo_ref)
            (fill : list utxo_ref) : list utxo :=
-  let refs := filter (fun r => r ∉ ign) (take sp window fill) in
+  let refs := filter (fun r => r ∉ ign) (take_space sp window fill) in
   let fetched := fetch st refs in
   let fetched := if q_coll q then filter (fun u => is_only_naked (u_assets u) = true) fetched
                  else fetched in
